@@ -1,5 +1,6 @@
+from xeng import progs, progs2, progs3
 from . import _common
 
 
 def run(out):
-    _common.run(out, 'C02', s_props=['C02'])
+    _common.run(out, 'C02', x=[dict(fn=progs3.c02_corpus, name='c02', compile_violation=True)], s_props=['C02'])
